@@ -63,6 +63,21 @@ type OpenCall struct {
 	Caps   []corebgp.Capability
 	Nonce  int64 // remote nonce found in caps, -1 if none
 	Result *corebgp.Notification
+	orig   []corebgp.Capability // the slice corebgp passed (checked for later modification)
+}
+
+// Modified reports whether the capabilities handed to OnOpenMessage changed
+// after the call began.
+func (o OpenCall) Modified() bool {
+	if len(o.orig) != len(o.Caps) {
+		return true
+	}
+	for i := range o.Caps {
+		if o.orig[i].Code != o.Caps[i].Code || !bytes.Equal(o.orig[i].Value, o.Caps[i].Value) {
+			return true
+		}
+	}
+	return false
 }
 
 // Delivered is one handler invocation.
@@ -198,7 +213,7 @@ func (m *PeerMon) OnOpenMessage(peer corebgp.PeerConfig, rid netip.Addr, caps []
 	m.mu.Lock()
 	m.enter("OnOpenMessage")
 	call := len(m.Opens)
-	oc := OpenCall{At: m.W.Now(), RID: rid, Nonce: -1}
+	oc := OpenCall{At: m.W.Now(), RID: rid, Nonce: -1, orig: caps}
 	for _, c := range caps {
 		oc.Caps = append(oc.Caps, corebgp.Capability{Code: c.Code, Value: append([]byte(nil), c.Value...)})
 		if c.Code == CapRemoteNonce && len(c.Value) == 4 {
@@ -235,6 +250,9 @@ func (m *PeerMon) OnEstablished(peer corebgp.PeerConfig, w corebgp.UpdateMessage
 	m.state = stInEst
 	m.Sessions = append(m.Sessions, s)
 	m.cur = s
+	if n := m.W.addrUp(m.Addr, +1); n > 1 {
+		m.violate("OnEstablished while %d other session(s) for the same peer address are Established (across AddPeer/DeletePeer generations)", n-1)
+	}
 	fn := m.Cfg.OnEst
 	m.mu.Unlock()
 
@@ -307,6 +325,7 @@ func (m *PeerMon) OnClose(peer corebgp.PeerConfig) {
 	if s != nil {
 		s.CloseEnter = seq
 		s.CloseAt = m.W.Now()
+		m.W.addrUp(m.Addr, -1)
 	}
 	fn := m.Cfg.OnCloseFn
 	probe := m.Cfg.ProbeWriteInClose
@@ -340,6 +359,11 @@ func (m *PeerMon) CheckDelivered() []string {
 	m.mu.Lock()
 	defer m.mu.Unlock()
 	var out []string
+	for i, o := range m.Opens {
+		if o.Modified() {
+			out = append(out, fmt.Sprintf("[%s] OnOpenMessage call %d: the capabilities passed to the plugin were modified after the call began", m.Addr, i))
+		}
+	}
 	type span struct{ lo, hi uintptr }
 	var spans []span
 	for _, s := range m.Sessions {
